@@ -465,6 +465,7 @@ impl<'a> Emitter<'a> {
         text.push("use vstd::prelude::*;".to_string());
         text.push("use std::collections::VecDeque;".to_string());
         text.push("use vstd::std_specs::convert::*;".to_string());
+        text.push("use vstd::std_specs::cmp::*;".to_string());
         text.push("verus! {".to_string());
         for inc in self.u.includes.iter() {
             let p = format!("{}/{}", self.verif, inc);
